@@ -5,7 +5,7 @@
 From Coq Require Import List Arith Bool Sorted.
 Import ListNotations.
 From Verif Require Import BatchRPC.Model BatchRPC.Proofs BatchRPC.Proofs2 BatchRPC.Proofs3 BatchRPC.Proofs4 BatchRPC.Proofs5
-  BatchRPC.System BatchRPC.SysProofs BatchRPC.RunLoop BatchRPC.RunLoopProofs BatchRPC.Pool BatchRPC.PropsLemmas.
+  BatchRPC.System BatchRPC.SysProofs BatchRPC.RunLoop BatchRPC.RunLoopProofs BatchRPC.Pool BatchRPC.Proofs6 BatchRPC.Gate BatchRPC.PropsLemmas.
 
 (* ids: allocation order is strictly increasing, every id is allocated exactly once (also across stream
    re-creation: no step lowers next_id), every id in the table was allocated to exactly that entry *)
@@ -336,6 +336,54 @@ Theorem C18_collapse_key_equal_commands :
 Proof. exact collapse_key_full. Qed.
 Print Assumptions C18_collapse_key_equal_commands.
 
+(* an error is the call's OWN (the black-box oracle own_error, over all runs): (1) no completion put on an entry's channel
+   ever carries a context / time-out error; (2) a call that returned such an error has its own canceled flag set and no such
+   completion; (3) the canceled flag of an entry is raised only by the abort transition of its own caller, which changes
+   nothing else of the entry -- so another call's cancellation or time-out can never become this call's result *)
+Theorem C18_own_error : forall s c, reachable s ->
+  (forall k, In (Err k) (e_comp (ent s c)) -> own_only k = false)
+  /\ (forall k, e_ret (ent s c) = Some (Err k) -> own_only k = true ->
+        e_canceled (ent s c) = true /\ ~ In (Err k) (e_comp (ent s c)))
+  /\ (forall l s', step s l = Some s' -> e_canceled (ent s c) = false -> e_canceled (ent s' c) = true ->
+        exists k, ent s' c = mkEntry (e_host (ent s c)) (e_st (ent s c)) (e_comp (ent s c)) true (Some (Err k))
+                  /\ e_ret (ent s c) = None).
+Proof. exact own_error. Qed.
+Print Assumptions C18_own_error.
+
+(* the resource-control / RPC-interceptor wrapper (NewInterceptedClient) over the core: a response that comes out of the
+   wrapper is the call's own, the wrapped result never changes once it exists, a call refused by OnRequestWait is refused
+   whatever happens inside and an admitted one returns nothing before the inner call has, an inner error passes unchanged
+   and a response is only ever replaced by the response gate's error *)
+Theorem C18_gate_wrapped_call : forall bg g,
+  (forall s c p, reachable s -> wrapped_ret bg g s c = Some (GInner (Resp p)) -> p = c /\ e_ret (ent s c) = Some (Resp c))
+  /\ (forall s ls s' c r, reachable s -> run s ls = Some s' -> wrapped_ret bg g s c = Some r -> wrapped_ret bg g s' c = Some r)
+  /\ (gate_admits bg g = false -> forall inner, gate_result bg g inner = Some GReqErr)
+  /\ (gate_admits bg g = true -> gate_result bg g None = None)
+  /\ (gate_admits bg g = true -> forall e, gate_result bg g (Some (Err e)) = Some (GInner (Err e)))
+  /\ (gate_admits bg g = true -> forall p, gate_result bg g (Some (Resp p)) = Some (GInner (Resp p)) \/ gate_result bg g (Some (Resp p)) = Some GRespErr).
+Proof. exact gate_wrapped_call. Qed.
+Print Assumptions C18_gate_wrapped_call.
+
+(* the RPC interceptor of the call's context: at most once per call, never for a refused call, exactly once around an
+   admitted synchronous call, never for an asynchronous call without an active controller (code as it is) *)
+Theorem C18_gate_interceptor_runs : forall bg g a,
+  icpt_runs bg g a <= 1
+  /\ (gate_admits bg g = false -> icpt_runs bg g a = 0)
+  /\ (gate_admits bg g = true -> icpt_runs bg g false = 1)
+  /\ (rc_active bg g = false -> icpt_runs bg g true = 0).
+Proof. exact icpt_runs_spec. Qed.
+Print Assumptions C18_gate_interceptor_runs.
+
+(* the priority a request is enqueued with: its own override priority if it has one, else the group's priority when a
+   controller is active for it (wrapper installed, group named, not a background group), else 0 *)
+Theorem C18_gate_priority : forall bg gp g,
+  (g_override g <> 0 -> gate_priority bg gp g = g_override g)
+  /\ (rc_active bg g = false -> gate_priority bg gp g = g_override g)
+  /\ (g_override g = 0 -> rc_active bg g = true -> gate_priority bg gp g = gp (g_group g))
+  /\ (g_rc g = false \/ g_group g = 0 \/ g_group g = bg -> rc_active bg g = false).
+Proof. exact gate_priority_spec. Qed.
+Print Assumptions C18_gate_priority.
+
 (* ---------------------------------------------------------------- non-vacuity *)
 Definition get (o : option state) : state := match o with Some s => s | None => init end.
 
@@ -475,3 +523,19 @@ Example ex_collapse_key : let kenc := fun k : nat * nat * bool => let '(a, b, c)
   /\ flight_key kenc plain 1 = flight_key kenc plain 2 /\ flight_key kenc batch 3 <> flight_key kenc plain 1
   /\ flight_key kenc batch 3 <> flight_key kenc batch 4.
 Proof. vm_compute. repeat split; discriminate. Qed.
+
+(* the wrapper: group 3 (priority 12) without override -> 12, with override 5 -> 5, background group 9 -> 0; a refused call;
+   a response replaced by the response gate; caller 7's own response passing through *)
+Example ex_gate : let gp := fun g => match g with 1 => 1 | 2 => 8 | 3 => 12 | _ => 0 end in
+  gate_priority 9 gp (mkG true 0 3 0) = 12 /\ gate_priority 9 gp (mkG true 5 3 0) = 5 /\ gate_priority 9 gp (mkG true 0 9 0) = 0
+  /\ gate_priority 9 gp (mkG false 0 3 0) = 0
+  /\ gate_result 9 (mkG true 0 2 1) (Some (Resp 7)) = Some GReqErr /\ gate_result 9 (mkG true 0 2 2) (Some (Resp 7)) = Some GRespErr
+  /\ gate_result 9 (mkG true 0 9 2) (Some (Resp 7)) = Some (GInner (Resp 7)) /\ gate_result 9 (mkG true 0 2 0) None = None.
+Proof. vm_compute. auto 10. Qed.
+
+(* own error: caller 1 times out, caller 2's entry is failed by the stream: 1 has its own flag and no completion, 2's
+   completion is the stream error; nobody holds the other's error *)
+Example ex_own_error : let s := get (run init [Submit 1 0; Submit 2 0; Build 1 1; Build 2 2; Store 1; Store 2; Abort 1 ETimeout; StreamFail 0; Return 2]) in
+  e_ret (ent s 1) = Some (Err ETimeout) /\ e_canceled (ent s 1) = true /\ e_comp (ent s 1) = [Err EStream]
+  /\ e_ret (ent s 2) = Some (Err EStream) /\ e_canceled (ent s 2) = false.
+Proof. vm_compute. auto. Qed.
